@@ -23,7 +23,7 @@ ASSUMPTIONS = ["crash points are system-call boundaries of generated programs (a
 
 def setup(ctx):
     b = ctx.b("plain")
-    return {"drv": inject.compile_static_driver(b), "shim": rt.compile_shim(b)}
+    return {"drv": inject.compile_static_driver(b), "shim": rt.compile_shim(b), "rtdrv": rt.compile_driver(b)}
 
 
 @st.composite
@@ -262,6 +262,65 @@ def run(case, ctx):
         ctx.rmdir(base)
 
 
+@st.composite
+def concurrent(draw):
+    nth = draw(st.integers(2, 8))
+    return {"n": nth, "sizes": [draw(st.integers(3000, 900000)) for _ in range(nth)],
+            "bursts": [draw(st.integers(0, 40)) for _ in range(nth)]}
+
+
+def run_concurrent(case, ctx):
+    """No kill: several threads of one process relocate their streams from OVNI_TMPDIR at the
+    same time (thread_free released by a barrier).  (S2) every stream that is marked finished
+    in the final directory holds exactly the bytes its thread flushed."""
+    n = case["n"]
+    lines = ["MODE free", "P init 1 %s 5" % rt.hx("node.1")]
+    for t in range(n):
+        w = "T%d " % t
+        lines.append(w + "init %d" % (300 + t))
+        lines.append(w + "cpu %d %d" % (t, 10 + t))
+        lines.append(w + "ev %s now %s" % (rt.hx("OHx"), T.P("iiQ", -1, -1, 0)))
+        for _ in range(case["bursts"][t]):
+            lines.append(w + "ev %s now" % rt.hx("OB."))
+        lines.append(w + "jumbo %s now %d %d" % (rt.hx("OB."), case["sizes"][t], t))
+        lines.append(w + "ev %s now" % rt.hx("OHe"))
+        lines.append(w + "flush")
+        lines.append(w + "barrier")
+        lines.append(w + "free")
+    lines.append("P fini")
+    d = ctx.newdir()
+    try:
+        rr = rt.run_script(ctx.shared["rtdrv"], lines, d, tmpdir_mode=True, cpu_s=120, wall_s=300)
+        if rr.res.kind != "ok":
+            raise Violation("concurrent program did not finish: %s" % rr.res.brief())
+        for t in range(n):
+            sd = os.path.join(rr.tracedir, "loom.node.1", "proc.5", "thread.%d" % (300 + t))
+            try:
+                fin = json.load(open(os.path.join(sd, "stream.json"))).get("ovni", {}).get("finished") == 1
+            except Exception:
+                fin = False
+            if not fin:
+                continue
+            try:
+                data = open(os.path.join(sd, "stream.obs"), "rb").read()
+            except OSError:
+                data = b""
+            try:
+                evs = obs.decode_stream(data)
+            except obs.DecodeError as e:
+                raise Violation("S2: thread %d is marked finished in the final directory but its stream does not decode (%s); "
+                                "%d threads relocated together" % (300 + t, e, n))
+            prob = rt.match_stream(rt.expected_stream(lines, rr, "T%d" % t), evs)
+            if prob:
+                raise Violation("S2: thread %d is marked finished in the final directory but its stream is not what it flushed: %s; "
+                                "%d threads relocated together" % (300 + t, prob, n))
+        return {"nt": True, "cls": ["concurrent-relocation:%d" % n]}
+    finally:
+        ctx.rmdir(d)
+
+
 def parts(tier):
     return [Part("crash-points", run, strategy=lambda ctx: programs(), budget={"quick": 56, "thorough": 1200},
-                 cap_s={"quick": 500, "thorough": 3400})]
+                 cap_s={"quick": 500, "thorough": 3400}),
+            Part("concurrent-relocation", run_concurrent, strategy=lambda ctx: concurrent(),
+                 budget={"quick": 400, "thorough": 6000}, replay_any=30)]
